@@ -723,7 +723,7 @@ func (ck *checker) model() ([][]string, bool) {
 func pick(c *core.Ctx, all [][]string) [][]string {
 	full, sample := 1, 10
 	if !c.Quick() {
-		full, sample = 2, 45
+		full, sample = 3, 0
 	}
 	rng := rand.New(rand.NewSource(c.Seed + 18))
 	var out, long [][]string
